@@ -401,6 +401,71 @@ func c05Validator(e *Env) {
 		}
 		r.Check(names >= 2, "R05.3", key+"#names-both", fmt.Sprintf("the diagnostic names both services (%d names formatted)", names))
 	}
+	// the iteration over the subjects is reached on every run: no return of the validator lies before it
+	// (except for an empty service list)
+	for _, s := range sites {
+		var site ssa.Instruction
+		f := s.call.Parent()
+		if f != fn {
+			// the closure handed to the iterator: the call in fn that receives it
+			for f.Parent() != nil && f.Parent() != fn {
+				f = f.Parent()
+			}
+			allInstrs(fn, func(g *ssa.Function, ins ssa.Instruction) {
+				if g != fn {
+					return
+				}
+				if mc, ok := ins.(*ssa.MakeClosure); ok && mc.Fn == f {
+					for _, ref := range *mc.Referrers() {
+						if c, ok := ref.(ssa.CallInstruction); ok {
+							site = c
+						}
+					}
+				}
+			})
+		} else {
+			// the outermost loop around the error site
+			for _, b := range fn.Blocks {
+				if isLoopHeader(b) && b.Dominates(s.call.Block()) && reach(s.call.Block(), true)[b] {
+					if site == nil || b.Dominates(site.Block()) {
+						site = b.Instrs[0]
+					}
+				}
+			}
+		}
+		if site == nil {
+			r.Undecide("R05.3", key+"#every-run-reaches-the-iteration", "the iteration over the subject services was not found (unrecognised idiom)")
+			continue
+		}
+		okAll, bad := true, token.NoPos
+		for _, b := range fn.Blocks {
+			ret, isRet := b.Instrs[len(b.Instrs)-1].(*ssa.Return)
+			if !isRet || site.Block().Dominates(b) {
+				continue
+			}
+			// allowed: the list of services is empty
+			okEmpty := false
+			for _, ib := range fn.Blocks {
+				iff, isIf := ib.Instrs[len(ib.Instrs)-1].(*ssa.If)
+				if !isIf {
+					continue
+				}
+				if bo, isB := iff.Cond.(*ssa.BinOp); isB && bo.Op == token.EQL {
+					if c, isC := bo.X.(*ssa.Call); isC {
+						if bi, isBi := c.Call.Value.(*ssa.Builtin); isBi && bi.Name() == "len" && derivesFromField(c.Call.Args[0], "Services", 0) {
+							if k, isK := constInt(bo.Y); isK && k == 0 && edgeDominates(ib, true, ret) {
+								okEmpty = true
+							}
+						}
+					}
+				}
+			}
+			if !okEmpty {
+				okAll, bad = false, ret.Pos()
+			}
+		}
+		r.Check(okAll, "R05.3", key+"#every-run-reaches-the-iteration", "no return of the validator lies before the iteration over the subject services (a shortcut that skips the check accepts a shared service holding a contextual one)", e.P.Pos(bad))
+	}
 	// graph: Deps(subject.Name) of o.BuildDependencyGraph()
 	okGraph := false
 	allInstrs(fn, func(_ *ssa.Function, ins ssa.Instruction) {
@@ -518,6 +583,8 @@ func C15(e *Env) {
 	mergeLiteralRule(e, "mergeService", "Service")
 	r.Rule("R09.1", "a later file's `todo` (like every scalar attribute) overrides an earlier one: merge wiring of input.Service (shared with C09)", 11)
 	r.Rule("R09.1c", "behaviour classes of the merge combinators (shared with C09)", 4)
+	c03ToExpr(e)
+	r.Rule("R03.2", "toExpr strips exactly the two delimiters, in runes (shared with C03): cut by a byte index, a %todo(\"…\")% whose message is not ASCII loses its tail, is not recognised as a function token and the build is rejected", 1)
 	c15Builtins(e)
 	c15Existing(e)
 	r.NotCovered = append(r.NotCovered,
